@@ -163,6 +163,36 @@ Definition run_all (sz : nat) (script : list bytes) : list obs * lr :=
 
 Definition emitted (os : list obs) : list bytes := concat (map o_lines os).
 
+(* An io.Reader may return an error TOGETHER with bytes (io.EOF with the last
+   bytes, or any other error): 0 = nil, 1 = io.EOF, 2 = another error.
+   ReadAndSend extends the buffer by the count and frames it whatever the
+   error is, and hands the error back to its caller.  A scripted chunk carries
+   the error returned with its last byte; when the chunk is cut because it
+   exceeds the space offered, the earlier parts come with nil. *)
+Definition rerr := N.
+
+Fixpoint runE (fuel : nat) (r : lr) (script : list (bytes * rerr)) : list (obs * rerr) * lr :=
+  match fuel with
+  | 0 => ([], r)
+  | S f =>
+      match script with
+      | [] => ([], r)
+      | (c, e) :: rest =>
+          let sp := space (grow r) in
+          let n := Nat.min (length c) sp in
+          let (ls, r') := read_and_send r (firstn n c) in
+          let script' := if n <? length c then (skipn n c, e) :: rest else rest in
+          let eo := if n <? length c then 0%N else e in
+          let (os, r'') := runE f r' script' in
+          ((mk_obs sp n ls (pending r'), eo) :: os, r'')
+      end
+  end.
+
+Definition run_allE (sz : nat) (script : list (bytes * rerr)) : list (obs * rerr) * lr :=
+  runE (run_fuel (map fst script)) (new_lr sz) script.
+
+Definition nonnil (e : rerr) : bool := negb (N.eqb e 0).
+
 (* everything delivered for a source that returns [script] and then ends *)
 Definition deliver (sz : nat) (script : list bytes) : list bytes :=
   let (os, r) := run_all sz script in emitted os ++ finish r.
